@@ -288,10 +288,13 @@ func OracleResult(prop string, v *View) []Violation {
 		return nil
 	}
 	if len(f.Producible) > 0 && len(f.RunError) == 0 {
-		if c.ErrClass == "no-more-steps" && prop != "C09" {
-			return nil // the fallback detector giving up on a live workflow is C09's finding
+		shape, heldUp := stalledShape(v)
+		if c.ErrClass == "no-more-steps" && prop != "C09" && heldUp {
+			// the fallback detector giving up while a step goroutine was merely held up is C09's finding;
+			// giving up with nothing held up means the run really lost its way
+			return nil
 		}
-		return []Violation{viol(prop, "spurious-error", c.ErrClass+stalledShape(v), "run failed with %q (class %s) although outputs %v are producible (steps: %s)", c.Err, c.ErrClass, f.ProducibleIDs(), factsSummary(f))}
+		return []Violation{viol(prop, "spurious-error", c.ErrClass+shape, "run failed with %q (class %s) although outputs %v are producible (steps: %s)", c.Err, c.ErrClass, f.ProducibleIDs(), factsSummary(f))}
 	}
 	return nil
 }
@@ -389,7 +392,7 @@ func OracleMayRun(prop string, v *View) []Violation {
 		}
 		if st.Enabled != nil {
 			r := obs.Eval(st.Enabled)
-			if r.St == ref.OK && r.V == false {
+			if b, err := ref.ToBool(r.V); r.St == ref.OK && err == nil && !b {
 				out = append(out, viol(prop, "ran-although-disabled", "", "step %s executed plugin code although its enabled condition %s is false", id, ir.ExprText(st.Enabled)))
 			}
 			if bad, ok := producedBefore(obs, st.Enabled, ev.Seq); !ok {
@@ -793,9 +796,9 @@ func OraclePrompt(prop string, v *View) []Violation {
 
 // stalledShape says where the step goroutines were held up by the scheduler when the engine's
 // fallback detector gave up (identified by function, not by line, so it survives unrelated edits).
-func stalledShape(v *View) string {
+func stalledShape(v *View) (string, bool) {
 	if v.C0 == nil || v.C0.ErrClass != "no-more-steps" || len(v.R.Snapshots) == 0 {
-		return ""
+		return "", false
 	}
 	sn := v.R.Snapshots[len(v.R.Snapshots)-1]
 	inNotify, elsewhere := 0, map[string]bool{}
@@ -819,9 +822,12 @@ func stalledShape(v *View) string {
 		}
 	}
 	if len(elsewhere) == 0 && inNotify > 0 {
-		return "; every held-up step goroutine is waiting to enter a stage-change notification"
+		return "; every held-up step goroutine is waiting to enter a stage-change notification", true
 	}
-	return "; step goroutines held up in: " + strings.Join(keys(elsewhere), ",")
+	if len(elsewhere) == 0 {
+		return "; no step goroutine was held up", false
+	}
+	return "; step goroutines held up in: " + strings.Join(keys(elsewhere), ","), true
 }
 
 // stoppedBeforeStart is C04's third clause: a step whose stop condition fired before it could start
